@@ -53,7 +53,7 @@ HEADER = r"""
        (case (car op)
          ((a) (vector-set! ring (cadr op) (make-obj (caddr op) (cadddr op))))
          ((d) (vector-set! ring (cadr op) #f))
-         ((s) (let ((nf (begin (gc) (nonfree)))) (if (> nf peak) (set! peak nf))
+         ((s) (let ((nf (begin (scrub 20) (gc) (nonfree)))) (if (> nf peak) (set! peak nf))
                 (%obs (list 's (cadr op) nf (vector-ref (heap-counts) 0)))))
          ((q) (vector-fill! ring #f)
               (let ((nf (settle))) (%obs (list 'q (cadr op) nf (vector-ref (heap-counts) 0)))))))
@@ -110,6 +110,7 @@ def gen_history(rng, nops, slots=64):
     kinds = rng.sample(KINDS, rng.randrange(2, len(KINDS) + 1))
     big = rng.random() < 0.5
     total = 0
+    biggest = 0
     for i in range(nops):
         r = rng.random()
         if r < 0.02:
@@ -121,7 +122,9 @@ def gen_history(rng, nops, slots=64):
         if r < 0.06:
             sn += 1
             ops.append(["s", sn])
-            bound_at[sn] = sum(live.values())
+            # + the largest single object allocated so far: one stale reference in a VM temporary (the last value an
+            # opcode left in a register slot) may legitimately keep one dropped object alive a little longer
+            bound_at[sn] = sum(live.values()) + biggest
             continue
         kind = rng.choice(kinds)
         sizes = SIZES[kind]
@@ -144,6 +147,7 @@ def gen_history(rng, nops, slots=64):
             continue
         ops.append(["a", slot, kind, n])
         live[slot] = obj_bytes(kind, n)
+        biggest = max(biggest, live[slot])
         total += live[slot]
         order.append(slot)
     qn += 1
